@@ -4,7 +4,7 @@
 # pinned tests pass with it; then runs the given checks against it (VERIF_REPO) and reports.
 set -u
 name="$1"; mdir="$2"; shift 2
-W=/tmp/mw
+W=${VERIF_SCRATCH:-/tmp/mw}
 cd $W || exit 9
 git checkout -q -- . ; git clean -fdq; git checkout -q --detach $(git -C /repo rev-parse HEAD)
 rm -rf $W/_mut; cp -r "$mdir" $W/_mut
